@@ -3,7 +3,8 @@ package main
 // C02 — closures capture variables lexically, at any depth and from any call path.
 //
 // Every case is a closure program (function literals nested 1..5 deep, each reading/writing
-// chosen enclosing bindings, escaping by return / list / map / argument / list.map, filter,
+// chosen enclosing bindings through every statement form that loads or stores a variable:
+// `x`, `x = e`, `x += e`, `x -= e`, `x++`, `x--`, `a, b = [..]`, `a, b := [..]`; escaping by return / list / map / argument / list.map, filter,
 // each / sorted / try / spawn / go / vm.Get+vm.Call, then called in a generated order).
 // It is run by the REAL parser, compiler and VM in-process and, as an S-expression, by the
 // Lean model (RisorModel/C02): `Impl` = eval Mode.positional (MakeCell picks frames[fp-d]),
@@ -60,9 +61,16 @@ func c02_cCall(f *c02_ct, as ...*c02_ct) *c02_ct {
 func c02_cFn(name string, ps []string, body ...*c02_ct) *c02_ct {
 	return &c02_ct{K: "fn", S: name, Ps: ps, C: body}
 }
-func c02_cD(x string, e *c02_ct) *c02_ct        { return &c02_ct{K: "d", S: x, C: []*c02_ct{e}} }
-func c02_cA(x string, e *c02_ct) *c02_ct        { return &c02_ct{K: "a", S: x, C: []*c02_ct{e}} }
-func c02_cRet(e *c02_ct) *c02_ct                { return &c02_ct{K: "ret", C: []*c02_ct{e}} }
+func c02_cD(x string, e *c02_ct) *c02_ct { return &c02_ct{K: "d", S: x, C: []*c02_ct{e}} }
+func c02_cA(x string, e *c02_ct) *c02_ct { return &c02_ct{K: "a", S: x, C: []*c02_ct{e}} }
+func c02_cRet(e *c02_ct) *c02_ct         { return &c02_ct{K: "ret", C: []*c02_ct{e}} }
+
+// the other statement forms that read/write a variable: `x += e`, `x -= e` (K "+=", "-="),
+// `x++`, `x--` (K "++", "--"), `a, b = e` (K "ma"), `a, b := e` (K "md")
+func c02_cOp(opr, x string, e *c02_ct) *c02_ct  { return &c02_ct{K: opr, S: x, C: []*c02_ct{e}} }
+func c02_cPost(opr, x string) *c02_ct           { return &c02_ct{K: opr, S: x} }
+func c02_cMA(xs []string, e *c02_ct) *c02_ct    { return &c02_ct{K: "ma", Ps: xs, C: []*c02_ct{e}} }
+func c02_cMD(xs []string, e *c02_ct) *c02_ct    { return &c02_ct{K: "md", Ps: xs, C: []*c02_ct{e}} }
 func c02_cL(es ...*c02_ct) *c02_ct              { return &c02_ct{K: "l", C: es} }
 func c02_cM(es ...*c02_ct) *c02_ct              { return &c02_ct{K: "m", C: es} }
 func c02_cX(e *c02_ct, i int) *c02_ct           { return &c02_ct{K: "x", I: int64(i), C: []*c02_ct{e}} }
@@ -89,8 +97,14 @@ func c02Sexp(t *c02_ct) string {
 			fmt.Fprintf(&sb, "i %d ", t.I)
 		case "v":
 			sb.WriteString("v " + t.S + " ")
-		case "d", "a":
+		case "d", "a", "+=", "-=", "++", "--":
 			sb.WriteString(t.K + " " + t.S + " ")
+		case "ma", "md":
+			sb.WriteString(t.K + " ( ")
+			for _, p := range t.Ps {
+				sb.WriteString(p + " ")
+			}
+			sb.WriteString(") ")
 		case "fn":
 			sb.WriteString("fn " + t.S + " ( ")
 			for _, p := range t.Ps {
@@ -201,6 +215,14 @@ func c02Stmt(t *c02_ct) string {
 			return g + "; " + t.S + opr + recv
 		}
 		return t.S + opr + c02Expr(t.C[0])
+	case "+=", "-=":
+		return t.S + " " + t.K + " " + c02Expr(t.C[0])
+	case "++", "--":
+		return t.S + t.K
+	case "ma":
+		return strings.Join(t.Ps, ", ") + " = " + c02Expr(t.C[0])
+	case "md":
+		return strings.Join(t.Ps, ", ") + " := " + c02Expr(t.C[0])
 	case "ret":
 		return "return " + c02Expr(t.C[0])
 	}
@@ -266,6 +288,95 @@ type c02Gen struct {
 	routes   map[string]int
 	maxLit   int
 	wide     int
+	forms    map[string]int // write forms used: "=", "+=", "-=", "++", "--", "tuple=", "tuple:="; suffix " captured" when a target is an enclosing function's local
+}
+
+func (g *c02Gen) form(f string, vs ...c02Var) {
+	if g.forms == nil {
+		g.forms = map[string]int{}
+	}
+	for _, v := range vs {
+		if l := g.levelOf(v.name); l > 0 && l < g.level() {
+			f += " captured"
+			break
+		}
+	}
+	g.forms[f]++
+}
+
+// the level of the scope the name resolves to from the current position (-1: unknown)
+func (g *c02Gen) levelOf(name string) int {
+	for l := g.level(); l >= 0; l-- {
+		for _, v := range g.scopes[l] {
+			if v.name == name {
+				return l
+			}
+		}
+	}
+	return -1
+}
+
+// one write to the int binding v in a generated form: `v = e`, `v += e`, `v -= e`, `v++`, `v--`
+func (g *c02Gen) writeStmt(v c02Var) *c02_ct {
+	x := g.r.Intn(100)
+	switch {
+	case x < 45:
+		g.form("=", v)
+		return c02_cA(v.name, g.intExpr(2))
+	case x < 65:
+		g.form("+=", v)
+		return c02_cOp("+=", v.name, g.intExpr(1))
+	case x < 75:
+		g.form("-=", v)
+		return c02_cOp("-=", v.name, g.intExpr(1))
+	case x < 90:
+		g.form("++", v)
+		return c02_cPost("++", v.name)
+	default:
+		g.form("--", v)
+		return c02_cPost("--", v.name)
+	}
+}
+
+// `a, b[, c] = [e…]` over 2-3 distinct writable int bindings, the first one chosen by the
+// caller; the value is a list literal of int expressions, or a rotation of the targets
+// themselves (`lo, hi = [hi, lo]`)
+func (g *c02Gen) tupleAssign(first c02Var, vs []c02Var) *c02_ct {
+	k := 2 + g.r.Intn(2)
+	targets := []c02Var{first}
+	for tries := 0; len(targets) < k && tries < 12; tries++ {
+		w := Pick(g.r, vs)
+		dup := false
+		for _, t := range targets {
+			if t.name == w.name {
+				dup = true
+			}
+		}
+		if !dup {
+			targets = append(targets, w)
+		}
+	}
+	if len(targets) < 2 {
+		return nil
+	}
+	// the order of the names on the left is generated too
+	for i := len(targets) - 1; i > 0; i-- {
+		j := g.r.Intn(i + 1)
+		targets[i], targets[j] = targets[j], targets[i]
+	}
+	names := make([]string, len(targets))
+	es := make([]*c02_ct, len(targets))
+	rot := g.r.Chance(30)
+	for i, t := range targets {
+		names[i] = t.name
+		if rot {
+			es[i] = c02_cV(targets[(i+1)%len(targets)].name)
+		} else {
+			es[i] = g.intExpr(1)
+		}
+	}
+	g.form("tuple=", targets...)
+	return c02_cMA(names, c02_cL(es...))
 }
 
 func (g *c02Gen) level() int { return len(g.scopes) - 1 }
@@ -408,6 +519,21 @@ func (g *c02Gen) stmt() []*c02_ct {
 	rem := g.maxDepth - g.level()
 	switch {
 	case x < 22: // local int
+		if g.r.Chance(25) {
+			// `v1, v2[, v3] := [e…]`: the names claim their slots from the last to the first
+			k := 2 + g.r.Intn(2)
+			names := make([]string, k)
+			es := make([]*c02_ct, k)
+			for i := range names {
+				names[i] = g.fresh("v")
+				es[i] = g.intExpr(1)
+			}
+			for _, n := range names {
+				g.declare(c02Var{n, c02Int, true})
+			}
+			g.form("tuple:=")
+			return []*c02_ct{c02_cMD(names, c02_cL(es...))}
+		}
 		name := g.fresh("v")
 		e := g.intExpr(2)
 		g.declare(c02Var{name, c02Int, true})
@@ -439,7 +565,12 @@ func (g *c02Gen) stmt() []*c02_ct {
 		if g.r.Chance(50) {
 			v = vs[len(vs)-1-g.r.Intn((len(vs)+1)/2)]
 		}
-		return []*c02_ct{c02_cA(v.name, g.intExpr(2))}
+		if len(vs) >= 2 && g.r.Chance(30) {
+			if st := g.tupleAssign(v, vs); st != nil {
+				return []*c02_ct{st}
+			}
+		}
+		return []*c02_ct{g.writeStmt(v)}
 	case x < 84: // keep an intermediate value (a closure, a container) in a local
 		vs := g.visible(func(v c02Var) bool { return v.ty.K == 1 || v.ty.K == 2 })
 		if len(vs) == 0 {
@@ -568,7 +699,13 @@ func (g *c02Gen) failThunk() *c02_ct {
 	vs := g.visible(func(v c02Var) bool { return v.ty.K == 0 && v.writable })
 	if len(vs) > 0 {
 		v := Pick(g.r, vs)
-		body = append(body, c02_cA(v.name, c02_cAdd(c02_cV(v.name), c02_cI(int64(1+g.r.Intn(3))))))
+		if g.r.Bool() {
+			g.form("+=", v)
+			body = append(body, c02_cOp("+=", v.name, c02_cI(int64(1+g.r.Intn(3)))))
+		} else {
+			g.form("=", v)
+			body = append(body, c02_cA(v.name, c02_cAdd(c02_cV(v.name), c02_cI(int64(1+g.r.Intn(3))))))
+		}
 	}
 	body = append(body, &c02_ct{K: "F"})
 	g.scopes = g.scopes[:len(g.scopes)-1]
@@ -678,6 +815,7 @@ type c02Case struct {
 	obs   []string
 	gen   *c02Gen
 	label string
+	forms bool // a directed case about the write forms (not a witness of the known finding): reported at once
 }
 
 func c02Generate(r *RNG, shallow bool) *c02Case {
@@ -687,10 +825,19 @@ func c02Generate(r *RNG, shallow bool) *c02Case {
 	}
 	g.scopes = [][]c02Var{nil}
 	var main []*c02_ct
-	for i := 0; i < 1+r.Intn(2); i++ {
-		name := g.fresh("n")
-		main = append(main, c02_cD(name, c02_cI(int64(r.Intn(10)))))
-		g.declare(c02Var{name, c02Int, true})
+	if r.Chance(15) {
+		// globals declared by a tuple `:=`
+		a, b := g.fresh("n"), g.fresh("n")
+		main = append(main, c02_cMD([]string{a, b}, c02_cL(c02_cI(int64(r.Intn(10))), c02_cI(int64(r.Intn(10))))))
+		g.declare(c02Var{a, c02Int, true})
+		g.declare(c02Var{b, c02Int, true})
+		g.form("tuple:=")
+	} else {
+		for i := 0; i < 1+r.Intn(2); i++ {
+			name := g.fresh("n")
+			main = append(main, c02_cD(name, c02_cI(int64(r.Intn(10)))))
+			g.declare(c02Var{name, c02Int, true})
+		}
 	}
 	nf := 1 + r.Intn(3)
 	for i := 0; i < nf; i++ {
@@ -758,7 +905,13 @@ func c02Generate(r *RNG, shallow bool) *c02Case {
 			ws := g.visible(func(w c02Var) bool { return w.ty.K == 0 && w.writable })
 			if len(ws) > 0 {
 				w := Pick(r, ws)
-				main = append(main, c02_cA(w.name, c02_cAdd(c02_cV(w.name), c02_cI(1))))
+				if len(ws) >= 2 && r.Chance(30) {
+					if st := g.tupleAssign(w, ws); st != nil {
+						main = append(main, st)
+						continue
+					}
+				}
+				main = append(main, g.writeStmt(w))
 			}
 		}
 	}
@@ -1104,6 +1257,11 @@ func c02RunCase(e *Env, c *c02Case, record bool) c02Verdict {
 			e.R.H("routes", k)
 		}
 	}
+	for k, n := range c.gen.forms {
+		for i := 0; i < n; i++ {
+			e.R.H("write_forms", k)
+		}
+	}
 	if v.mismatch != "" {
 		goOut, impl, what := r.Outcome+" "+r.ErrText, v.impl, v.mismatch
 		c02Pending = append(c02Pending, func() { e.R.Mismatch(key, goOut, impl, what) })
@@ -1112,7 +1270,7 @@ func c02RunCase(e *Env, c *c02Case, record bool) c02Verdict {
 		detail := v.spec
 		c02Pending = append(c02Pending, func() { e.R.Spec(key, detail, "") })
 	} else if v.spec != "" {
-		if v.finding == "" && c.label != "" {
+		if v.finding == "" && c.label != "" && !c.forms {
 			// directed witnesses of the known finding: if they fail in an unlisted way, report them
 			// after the generated cases (which work on the unchanged tree)
 			c02Deferred = append(c02Deferred, [2]string{key, v.spec})
@@ -1226,6 +1384,91 @@ func c02Directed() []*c02Case {
 	}
 }
 
+// directed cases about the statement forms that read/write a captured binding.  Every write
+// site of the compiler (`=`, compound, postfix, tuple `=`) and the tuple `:=` declaration is
+// exercised on bindings whose slot in the defining function differs from their position in the
+// closure's free list, and the effect is observed through a SIBLING closure sharing the bindings.
+func c02DirectedForms() []*c02Case {
+	mk := func(label string, obs []string, main ...*c02_ct) *c02Case {
+		return &c02Case{main: main, obs: obs, label: label, forms: true, gen: &c02Gen{routes: map[string]int{}}}
+	}
+	V, I, L := c02_cV, c02_cI, c02_cL
+	fn := func(ps []string, body ...*c02_ct) *c02_ct { return c02_cFn("_", ps, body...) }
+	get := func(xs ...string) *c02_ct {
+		es := make([]*c02_ct, len(xs))
+		for i, x := range xs {
+			es[i] = V(x)
+		}
+		return fn(nil, c02_cRet(L(es...)))
+	}
+	// factory(seed) { lo := seed; hi := seed + 10; <w := writer>; return [w, get] }
+	factory := func(writer *c02_ct) *c02_ct {
+		return c02_cFn("pair", []string{"seed"},
+			c02_cD("lo", V("seed")), c02_cD("hi", c02_cAdd(V("seed"), I(10))),
+			c02_cD("w", writer), c02_cD("g", get("lo", "hi")),
+			c02_cRet(L(V("w"), V("g"))))
+	}
+	use := func(calls int) []*c02_ct {
+		out := []*c02_ct{c02_cD("p", c02_cCall(V("pair"), I(1))), c02_cD("q", c02_cCall(V("pair"), I(5)))}
+		for i := 0; i < calls; i++ {
+			out = append(out, c02_cD(fmt.Sprintf("r%d", i), c02_cCall(c02_cX(V("p"), 0))), c02_cD(fmt.Sprintf("s%d", i), c02_cCall(c02_cX(V("p"), 1))))
+		}
+		return append(out, c02_cD("t", c02_cCall(c02_cX(V("q"), 1))))
+	}
+	obs := []string{"r0", "s0", "r1", "s1", "t"}
+	prog := func(writer *c02_ct, more ...*c02_ct) []*c02_ct {
+		return append(append([]*c02_ct{factory(writer)}, use(2)...), more...)
+	}
+	return []*c02Case{
+		mk("tuple = swaps two captured bindings", obs, prog(fn(nil, c02_cMA([]string{"lo", "hi"}, L(V("hi"), V("lo"))), c02_cRet(L(V("lo"), V("hi")))))...),
+		mk("tuple = to captured bindings, names in the other order", obs, prog(fn(nil, c02_cMA([]string{"hi", "lo"}, L(c02_cAdd(V("hi"), I(1)), c02_cAdd(V("lo"), I(2)))), c02_cRet(I(0))))...),
+		mk("tuple = to one captured binding and the writer's own local", obs, prog(fn(nil, c02_cD("own", I(0)), c02_cMA([]string{"own", "hi"}, L(V("lo"), c02_cAdd(V("hi"), I(3)))), c02_cRet(V("own"))))...),
+		mk("tuple = mixing a global, a captured binding and an own local", append(obs, "n"),
+			append([]*c02_ct{c02_cD("n", I(0))}, prog(fn(nil, c02_cD("own", I(0)), c02_cMA([]string{"n", "lo", "own"}, L(c02_cAdd(V("n"), I(1)), c02_cAdd(V("lo"), I(1)), V("hi"))), c02_cRet(V("own"))))...)...),
+		mk("+= and -= on captured bindings", obs, prog(fn(nil, c02_cOp("+=", "hi", V("lo")), c02_cOp("-=", "lo", I(1)), c02_cRet(L(V("lo"), V("hi")))))...),
+		mk("++ and -- on captured bindings", obs, prog(fn(nil, c02_cPost("++", "hi"), c02_cPost("--", "lo"), c02_cRet(L(V("lo"), V("hi")))))...),
+		mk("writer called by list.each and try", []string{"s", "t"},
+			c02_cFn("stats", nil, c02_cD("count", I(0)), c02_cD("sum", I(0)), c02_cD("last", I(0)),
+				c02_cD("add", fn([]string{"a"}, c02_cA("last", V("a")), c02_cMA([]string{"count", "sum"}, L(c02_cAdd(V("count"), I(1)), c02_cAdd(V("sum"), V("a")))), c02_cRet(I(0)))),
+				c02_cD("rep", get("count", "sum", "last")), c02_cRet(L(V("add"), V("rep")))),
+			c02_cD("p", c02_cCall(V("stats"))), c02_cD("o", c02_cR("each", L(I(5), I(6), I(7)), c02_cX(V("p"), 0))),
+			c02_cD("u", c02_cR("try", fn(nil, c02_cRet(c02_cCall(c02_cX(V("p"), 0), I(10)))))),
+			c02_cD("s", c02_cCall(c02_cX(V("p"), 1))), c02_cD("q", c02_cCall(V("stats"))), c02_cD("t", c02_cCall(c02_cX(V("q"), 1)))),
+		mk("bindings declared by tuple := and captured", []string{"r", "s", "t"},
+			c02_cFn("mk3", []string{"a"}, c02_cMD([]string{"x", "y", "z"}, L(V("a"), c02_cAdd(V("a"), I(1)), c02_cAdd(V("a"), I(2)))),
+				c02_cD("w", fn(nil, c02_cMA([]string{"z", "x"}, L(V("x"), V("y"))), c02_cPost("++", "y"), c02_cRet(I(0)))),
+				c02_cD("g", get("x", "y", "z")), c02_cRet(L(V("w"), V("g")))),
+			c02_cD("p", c02_cCall(V("mk3"), I(1))), c02_cD("r", c02_cCall(c02_cX(V("p"), 1))), c02_cD("u", c02_cCall(c02_cX(V("p"), 0))),
+			c02_cD("s", c02_cCall(c02_cX(V("p"), 1))), c02_cD("u2", c02_cCall(c02_cX(V("p"), 0))), c02_cD("t", c02_cCall(c02_cX(V("p"), 1)))),
+		func() *c02Case {
+			// frames with more than DefaultFrameLocals (8) locals keep them in extendedLocals: every
+			// activation must get its own storage (two counters from consecutive calls of one factory;
+			// an unrelated many-locals call between making a closure and using it)
+			wide := func(prefix string, n int, seed *c02_ct) []*c02_ct {
+				out := []*c02_ct{}
+				for i := 0; i < n; i++ {
+					out = append(out, c02_cD(fmt.Sprintf("%s%d", prefix, i), c02_cAdd(seed, I(int64(i)))))
+				}
+				return out
+			}
+			mkc := c02_cFn("counter", []string{"a"}, append(wide("w", 9, I(0)),
+				c02_cD("total", c02_cAdd(V("a"), V("w0"))),
+				c02_cRet(fn(nil, c02_cPost("++", "total"), c02_cMA([]string{"w1", "w2"}, L(V("w2"), V("w1"))), c02_cRet(L(V("total"), V("w1"), V("w2"))))))...)
+			busy := c02_cFn("busy", []string{"b"}, append(wide("p", 10, V("b")), c02_cRet(c02_cAdd(V("p0"), V("p9"))))...)
+			return mk("two closures from a frame with more than 8 locals, and a many-locals call in between", []string{"r1", "r2", "r3", "r4", "s", "r5", "r6"},
+				mkc, busy, c02_cD("c1", c02_cCall(V("counter"), I(10))), c02_cD("c2", c02_cCall(V("counter"), I(100))),
+				c02_cD("r1", c02_cCall(V("c1"))), c02_cD("r2", c02_cCall(V("c2"))), c02_cD("r3", c02_cCall(V("c1"))), c02_cD("r4", c02_cCall(V("c2"))),
+				c02_cD("c3", c02_cCall(V("counter"), I(1000))), c02_cD("s", c02_cCall(V("busy"), I(1))),
+				c02_cD("r5", c02_cCall(V("c3"))), c02_cD("r6", c02_cCall(V("c1"))))
+		}(),
+		mk("tuple = whose value has the wrong length, inside try", []string{"r", "s"},
+			c02_cFn("mk2", nil, c02_cD("x", I(1)), c02_cD("y", I(2)),
+				c02_cD("w", fn(nil, c02_cMA([]string{"x", "y"}, L(I(7), I(8), I(9))), c02_cRet(I(0)))),
+				c02_cD("g", get("x", "y")), c02_cRet(L(V("w"), V("g")))),
+			c02_cD("p", c02_cCall(V("mk2"))), c02_cD("r", c02_cR("try", c02_cX(V("p"), 0), I(42))), c02_cD("s", c02_cCall(c02_cX(V("p"), 1)))),
+	}
+}
+
 func c02DirectedHost() *c02Case {
 	// the same f, every step made from Go: vm.Get("f") -> Call(1) -> Call(2) -> Call(3)
 	abc := c02_cFn("f", []string{"a"}, c02_cRet(c02_cFn("_", []string{"b"}, c02_cRet(c02_cFn("_", []string{"c"}, c02_cRet(c02_cAdd(c02_cAdd(c02_cV("a"), c02_cV("b")), c02_cV("c"))))))))
@@ -1235,7 +1478,9 @@ func c02DirectedHost() *c02Case {
 
 func c02_runC02(e *Env) {
 	e.R.Rule = "closure programs: 1-3 factory functions with function literals nested up to 5 deep, each literal reading/writing " +
-		"generated enclosing bindings (own, any enclosing function, global; shadowing parameter names), escaping by return, list, map, " +
+		"generated enclosing bindings (own, any enclosing function, global; shadowing parameter names) through every statement form that " +
+		"loads or stores a variable (`x`, `x = e`, `x += e`, `x -= e`, `x++`, `x--`, `a, b = [..]` with 2-3 targets in a generated order, " +
+		"locals declared by `x := e` and `a, b := [..]`), escaping by return, list, map, " +
 		"argument, list.map/filter/each, sorted, try (with failing first thunk), spawn().wait(), go+channel, vm.Get+vm.Call from Go, " +
 		"then 3-9 call events in a generated order; 70% of programs are generated so that no capture reaches past the literal's own frame. " +
 		"A case is one program (+ host steps); distinct by its text; non-trivial when the real bytecode creates a cell and reads or " +
@@ -1244,7 +1489,7 @@ func c02_runC02(e *Env) {
 	if !e.Quick {
 		n = 100000
 	}
-	for _, c := range append(c02Directed(), c02DirectedHost()) {
+	for _, c := range append(append(c02Directed(), c02DirectedHost()), c02DirectedForms()...) {
 		v := c02RunCase(e, c, true)
 		c02Flush()
 		e.R.H("directed", c.label+" => "+map[bool]string{true: "violates", false: "ok"}[v.spec != ""])
